@@ -338,6 +338,9 @@ func (r *Run) execBlocks(fr *frame) {
 				if r.stepBudget > 0 {
 					budget = r.stepBudget
 				}
+				if r.steps&0xfffff == 0 {
+					r.checkDeadline()
+				}
 				if budget > 0 && r.steps > budget {
 					if r.nontermIsViolation {
 						r.violate(g, "nontermination", "step budget exceeded", r.currentModelOrSolveSafe())
